@@ -262,6 +262,29 @@ func verifyUnit1(l *Loader, pkgPath, key string, fixed map[string]Val, suffix st
 		if !c.Lemma && !c.NoFrame && len(c.Ensures)+len(c.Modifies) > 0 {
 			frameObligations(ex, fxp, entry, out, locs)
 		}
+		if c.HavocAll && !c.Trusted {
+			// a verified function that callers abstract by `havocs except T.f`: it must leave the
+			// excepted fields of every object unchanged
+			for _, m := range c.HavocExcept {
+				loc := env.evalLoc(m)
+				if loc.Kind != "key" {
+					fail("havocs except %s: only type-level fields T.f are supported", m.Src)
+				}
+				for _, k := range loc.Keys {
+					fin, ok := out.Heap[k]
+					if !ok {
+						continue
+					}
+					ini := entry.heapGet(k, fin.Sort)
+					if fin == ini {
+						continue
+					}
+					r := Fresh("kept_r", IntSort)
+					goal := Implies(Select(entry.alloc(), r), Eq(Select(fin, r), Select(ini, r)))
+					fxp.oblige("kept."+k, "frame", out, goal, fn.Pos(), "field excepted from `havocs` is unchanged: "+m.Src)
+				}
+			}
+		}
 	}
 	ex.Obls = append(ex.Obls, &Obl{Name: fx0.prefix + "#cover.exit", Kind: "cover", Unit: ex.Unit, Assume: ex.Assume[:len(ex.Assume):len(ex.Assume)], Reach: out.Reach, ExpectSat: true})
 	res.Obls = ex.Obls
